@@ -45,6 +45,7 @@ def safeDT : DataType → Bool → Bool
   | .map (.mk _ (.struct (.cons kf (.cons vf _))) _ _) _, _ => safeF kf && safeF vf
   | .struct fs, n => safeFs fs && (!n || defSafeFs fs)
   | .union ufs _, _ => safeUs ufs
+  | .dictionary _ v, _ => safeDT v false     -- the value builder is the builder of the non-nullable value field
   | _, _ => true
 def safeF : Field → Bool
   | .mk _ dt n _ => safeDT dt n
@@ -112,9 +113,9 @@ theorem safe_iff_shape : ∀ (b : B) (dt : DataType) (n : Bool) (md : Metadata),
     cases n <;> simp
   | .dictionary _ idx vals _, dt, n, md, h => by
     simp only [Shape] at h
-    obtain ⟨⟨kdt, vdt, rfl⟩, hi, hn, hu⟩ := h
+    obtain ⟨⟨kdt, vdt, rfl, hsv⟩, hi, hn, hu⟩ := h
     have h1 := safe_of_intLeaf idx hi
-    have h2 := safe_of_utf8B vals hu
+    have h2 := (safe_iff_shape vals vdt false [] hsv).1
     simp [Safe, DefSafe, safeDT, defSafeDT, h1.1, h1.2.1, h1.2.2, h2, hn]
   | .union _ fs _ _ _, dt, n, md, h => by
     simp only [Shape] at h
